@@ -1150,6 +1150,10 @@ class StreamEngine(Engine):
         if tier == "quick":
             strat = _strata(corpus, seed) + _num_strata(corpus, seed) + _type_strata(corpus, seed)  # type: ignore[operator]
             tasks = [(-1, 0, 0, strat[i : i + 150]) for i in range(0, len(strat), 150)] + tasks
+        # chunks that touch process-global parser state (resource handles, file metadata) go
+        # first: one task parses such a chunk many times in one process, which is what a
+        # history-dependent defect needs, and it must not fall victim to the wall cap
+        tasks.sort(key=lambda t: 0 if t[0] >= 0 and ("dense_resource" in corpus.w1[t[0]] or "{-#" in corpus.w1[t[0]]) else 1)
         st: Counter[str] = Counter()
         viols: list[tuple[int, dict[str, Any], Violation]] = []
         done = 0
